@@ -20,6 +20,8 @@
  * IN THE SOFTWARE.
  */
 
+#include <algorithm>
+
 #include <qhttpengine/parser.h>
 
 #include "proxysocket.h"
@@ -83,12 +85,11 @@ void ProxySocket::onUpstreamConnected()
     // Use the existing headers but insert proxy-related ones
     Socket::HeaderMap headers = mDownstreamSocket->headers();
     QByteArray peerIP = mDownstreamSocket->peerAddress().toString().toUtf8();
-    QByteArray origFwd = headers.value("X-Forwarded-For");
-    if (origFwd.isNull()) {
-        headers.insert("X-Forwarded-For", peerIP);
-    } else {
-        headers.insert("X-Forwarded-For", origFwd + ", " + peerIP);
-    }
+    QList<QByteArray> fwd = headers.values("X-Forwarded-For");
+    std::reverse(fwd.begin(), fwd.end());
+    fwd.append(peerIP);
+    headers.remove("X-Forwarded-For");
+    headers.insert("X-Forwarded-For", fwd.join(", "));
     if (!headers.contains("X-Real-IP")) {
         headers.insert("X-Real-IP", peerIP);
     }
